@@ -39,8 +39,11 @@ def _with_crc_uf(ctx):
     return real
 
 
-def h_roundtrip(ctx, variant, twin=None):
+def h_roundtrip(ctx, variant, twin=None, wc_range=None):
     wc = ctx.sint('wc', 8)
+    if wc_range:
+        # the raw form writes the workchain in decimal: one instance per length of that text
+        ctx.assume(And(wc >= wc_range[0], wc <= wc_range[1]))
     acc = ctx.bytes_('acc', 32)
     v = VARIANTS[variant]
     saved = _with_crc_uf(ctx)
@@ -192,6 +195,9 @@ def h_crc_lemmas(ctx, which):
 def instances(tier, seed):
     for i in range(len(VARIANTS)):
         yield 'h_roundtrip', dict(variant=i)
+    for rng in ((-128, -100), (-99, -10), (-9, -1), (0, 9), (10, 99), (100, 127)):
+        yield 'h_roundtrip', dict(variant=0, wc_range=list(rng))
+        yield 'h_roundtrip', dict(variant=1, wc_range=list(rng))
     yield 'h_other_equal', dict()
     for w in ('inj_state', 'one_byte', 'two_bytes', 'straddle_crc'):
         yield 'h_crc_lemmas', dict(which=w)
